@@ -133,6 +133,24 @@ func (s *StreamRecipe) Build() *Built {
 		}
 		cs := refenc.Realise(r, kinds, o)
 		return &Built{Stream: cs.Stream, Content: cs.Content, Format: "lzma2", Dict: ds}
+	case "refenc-empties":
+		// a long run of streams without content (no block, or one empty block),
+		// with stream padding between them: a reader has to get through all of
+		// them inside one Read call
+		r := sim.NewRng(s.Seed)
+		var img []byte
+		for i, n := 0, r.Range(70, 300); i < n; i++ {
+			check := sim.Pick(r, []byte{refxz.CheckNone, refxz.CheckCRC32, refxz.CheckCRC64, refxz.CheckSHA256})
+			var blocks []refxz.BlockSpec
+			if r.Chance(1, 3) {
+				blocks = []refxz.BlockSpec{{Data: []byte{0}, DictByte: byte(r.Intn(10))}}
+			}
+			img = append(img, refxz.BuildStream(check, blocks)...)
+			if i < n-1 {
+				img = append(img, make([]byte, 4*r.Weighted([]int{5, 2, 1}))...)
+			}
+		}
+		return &Built{Stream: img, Content: nil, Format: "xz"}
 	case "refenc-xz-maxdict":
 		// one small block whose LZMA2 filter declares the largest dictionary the
 		// format knows (size code 40 = 4 GiB - 1; xz-utils accepts it)
